@@ -358,8 +358,57 @@ func c24StoreMenu() []c24StoreOp {
 			return ""
 		}},
 	)
+	// composite operations: the inner operation runs while an object iterator of
+	// the same storage is open (and so holds its descriptors), idle descriptors
+	// are then closed, and the iterator is drained. A reference released once too
+	// often by the inner operation would be taken from the iterator: its
+	// descriptor is closed under it. (Run as sequences of their own only.)
+	c24NBase = len(ops)
+	for _, inner := range append([]c24StoreOp{}, ops...) {
+		inner := inner
+		if !(strings.HasPrefix(inner.name, "prefix(") || inner.name == "has(delta)" || inner.name == "size(delta)" || inner.name == "get(commit)" || inner.name == "deltaobject(delta)") {
+			continue
+		}
+		ops = append(ops, c24StoreOp{"iter(any) open { " + inner.name + "; close-idle } drained", func(st *filesystem.Storage, r *c24Repo) string {
+			it, err := st.IterEncodedObjects(plumbing.AnyObject)
+			if err != nil {
+				return normErr(err)
+			}
+			defer it.Close()
+			if _, err := it.Next(); err != nil {
+				return normErr(err)
+			}
+			if a := inner.run(st, r); a != "" {
+				return a
+			}
+			if err := st.CloseIdleDescriptors(); err != nil {
+				return normErr(err)
+			}
+			for {
+				o, err := it.Next()
+				if err == io.EOF {
+					return ""
+				}
+				if err != nil {
+					return "iterator opened before: " + normErr(err)
+				}
+				rd, err := o.Reader()
+				if err != nil {
+					return "iterator opened before: " + normErr(err)
+				}
+				_, err = io.Copy(io.Discard, rd)
+				rd.Close()
+				if err != nil {
+					return "iterator opened before: " + normErr(err)
+				}
+			}
+		}})
+	}
 	return ops
 }
+
+// c24NBase: menu[:c24NBase] are the plain operations, the rest composites.
+var c24NBase int
 
 // emptyBucket: a first byte no stored object starts with.
 func (r *c24Repo) emptyBucket() []byte {
@@ -406,10 +455,13 @@ func c24Store(c *fw.Ctx) {
 	var seqs [][]int
 	for a := range menu {
 		seqs = append(seqs, []int{a})
-		for b := range menu {
+		if a >= c24NBase {
+			continue
+		}
+		for b := range menu[:c24NBase] {
 			seqs = append(seqs, []int{a, b})
 			if depth >= 3 {
-				for d := range menu {
+				for d := range menu[:c24NBase] {
 					seqs = append(seqs, []int{a, b, d})
 				}
 			}
